@@ -330,6 +330,47 @@ theorem placedAux_starts (cfg : Cfg) (a : Alloc) (shapes : List ItemShape) :
       simp only [placeStep]
       cases cfg.constants <;> rfl
 
+/-! ### shapes cover the calls -/
+
+theorem Shape.add_cols_mono (s : Shape) (t : Col × Nat) (c : Col) (h : c ∈ s.cols) : c ∈ (s.add t).cols := by
+  unfold Shape.add
+  split
+  · exact h
+  · exact List.mem_append_left _ h
+
+theorem Shape.add_rows_mono (s : Shape) (t : Col × Nat) : s.rows ≤ (s.add t).rows := by
+  unfold Shape.add
+  exact Nat.le_max_left _ _
+
+theorem Shape.add_mem (s : Shape) (t : Col × Nat) : t.1 ∈ (s.add t).cols ∧ t.2 < (s.add t).rows := by
+  unfold Shape.add
+  refine ⟨?_, Nat.lt_of_lt_of_le (Nat.lt_succ_self _) (Nat.le_max_right _ _)⟩
+  split
+  · next h => simpa using h
+  · simp
+
+theorem foldl_add_mono (l : List (Col × Nat)) (s : Shape) :
+    (∀ c ∈ s.cols, c ∈ (l.foldl Shape.add s).cols) ∧ s.rows ≤ (l.foldl Shape.add s).rows := by
+  induction l generalizing s with
+  | nil => exact ⟨fun _ h => h, Nat.le_refl _⟩
+  | cons t rest ih =>
+    simp only [List.foldl_cons]
+    have h := ih (s.add t)
+    exact ⟨fun c hc => h.1 c (Shape.add_cols_mono s t c hc), Nat.le_trans (Shape.add_rows_mono s t) h.2⟩
+
+theorem foldl_add_covers (l : List (Col × Nat)) (s : Shape) (t : Col × Nat) (ht : t ∈ l) :
+    t.1 ∈ (l.foldl Shape.add s).cols ∧ t.2 < (l.foldl Shape.add s).rows := by
+  induction l generalizing s with
+  | nil => cases ht
+  | cons u rest ih =>
+    simp only [List.foldl_cons]
+    rcases List.mem_cons.mp ht with h | h
+    · subst h
+      have m := foldl_add_mono rest (s.add t)
+      have a := Shape.add_mem s t
+      exact ⟨m.1 _ a.1, Nat.lt_of_lt_of_le a.2 m.2⟩
+    · exact ih _ h
+
 /-! ### `minK` -/
 
 theorem minKAux_spec (n fuel k : Nat) (hf : n ≤ 2 ^ (k + fuel)) (hk : ∀ j, j < k → 2 ^ j < n) :
